@@ -9,7 +9,7 @@ From Coq Require Import List String Bool Arith.
 From Helm Require Import Engine.Types Engine.Eff Engine.Ops Engine.OpsFix Engine.Cluster Engine.Seq Engine.SeqProofs
                          Engine.Conc Engine.ConcProofs Engine.ConcLocal Engine.ConcProofsB
                          Engine.ConcRG Engine.ConcRGProgs Engine.ConcPrune Engine.ConcC09 Engine.ConcGenC09
-                         Engine.ConcStart Engine.ConcMix.
+                         Engine.ConcStart Engine.ConcMix Engine.ConcPruneB.
 From Helm Require Import Gen.PendingC09.
 Import ListNotations.
 
@@ -404,3 +404,72 @@ Example C09_mix_hypotheses_met :
   Forall (no_delete_mix) x_rb_ops /\ Forall (no_delete_mix) x_un_ops.
 Proof. exact x_mix_hyps. Qed.
 Print Assumptions C09_mix_hypotheses_met.
+
+(* PRUNING under concurrency (upgrade --max-history N among ANY other threads, every schedule, every
+   cluster behaviour).  Thread-local, all flags: whatever the thread deletes is not the revision that
+   its OWN latest deployed-read named as the deployed one ... *)
+Theorem C09_pruning_spares_own_deployed :
+  forall (K : Type) (kh : forall e : eff, K -> K * resp e * list kev) (dresp : forall e, resp e)
+         (rn ns : string) (ts : list (prog outcome)) (sch : list nat) (l : list release) (k : K)
+         (i : nat) fl cid vid mani hks,
+    nth_error ts i = Some (upgrade rn ns fl cid vid mani hks) ->
+    deletes_spare None (thread_events i (c_tr (snd (run K kh dresp outcome ts sch (mkC l k []))))).
+Proof. exact run_upgrade_spares_deployed. Qed.
+Print Assumptions C09_pruning_spares_own_deployed.
+
+(* ... and with a limit of at least 3 it is never the newest revision of its own latest history read
+   — so it is never another operation's pending record (the lock), which is the highest revision. *)
+Theorem C09_pruning_spares_newest :
+  forall (K : Type) (kh : forall e : eff, K -> K * resp e * list kev) (dresp : forall e, resp e)
+         (rn ns : string) (ts : list (prog outcome)) (sch : list nat) (l : list release) (k : K)
+         (i : nat) fl cid vid mani hks,
+    nth_error ts i = Some (upgrade rn ns fl cid vid mani hks) -> 3 <= f_max_history fl ->
+    deletes_spare_newest None (thread_events i (c_tr (snd (run K kh dresp outcome ts sch (mkC l k []))))).
+Proof. exact run_upgrade_spares_newest. Qed.
+Print Assumptions C09_pruning_spares_newest.
+
+(* Global: ANY number k of concurrent upgrades with limits 1 <= N_i <= N (any other flags except
+   --atomic, whose automatic rollback creates without pruning), every schedule, every cluster
+   behaviour, from any history with distinct revisions: the history never grows beyond
+   max (|initial|, max (N-1, 1) + #successful creates), and every operation creates at most once —
+   hence at most max (N-1, 1) + k records (sequentially, k = 1: N for N >= 2). *)
+Theorem C09_pruning_bound :
+  forall (K : Type) (kh : forall e : eff, K -> K * resp e * list kev) (dresp : forall e, resp e)
+         (rn ns : string) (N : nat) (ops : list op) (sch : list nat) (l0 : list release) (k : K),
+    Forall (fun o => match o with
+                     | OpUpgrade fl _ _ _ _ => f_atomic fl = false /\ 1 <= f_max_history fl <= N
+                     | _ => False
+                     end) ops ->
+    NoDup (revs l0) ->
+    let res := run K kh dresp outcome (map (op_prog_fx rn ns) ops) sch (mkC l0 k []) in
+    List.length (c_led (snd res)) <= Nat.max (List.length l0) (Nat.max (N - 1) 1 + List.length (creations (c_tr (snd res))))
+    /\ List.length (creations (c_tr (snd res))) <= List.length ops.
+Proof. exact pruning_bound. Qed.
+Print Assumptions C09_pruning_bound.
+
+(* K-C09-3: the quiescence theorem needs "no pruning": two upgrades --max-history 1 on 1:deployed
+   2:failed meet the hypotheses of the bound, reach it (3 = max (N-1, 1) + k records) and end with
+   TWO deployed revisions — the pruner deletes the failed LAST revision 2 inside Create and the
+   other upgrade, reading in between, creates revision 2 again.  Replayed on the real code (corpus). *)
+Theorem C09_quiescent_wf_pruning_refuted :
+  (Forall (pruning_op 1) x_k3_ops /\ NoDup (revs x_prune_led))
+  /\ let res := run_gated kstate (kube_handle "rel" "default") dead_resp outcome
+                    (map (op_prog_fx "rel" "default") x_k3_ops) x_k3_sched (mkC x_prune_led (k0 x_objs) []) in
+     outcomes outcome (fst res) = [Some OOk; Some OOk]
+     /\ map (fun r => (rev r, st r)) (c_led (snd res)) = [(1, SSuperseded); (3, SDeployed); (2, SDeployed)]
+     /\ creations (c_tr (snd res)) = [(1, 3); (0, 2)]
+     /\ List.length (c_led (snd res)) = Nat.max (1 - 1) 1 + List.length x_k3_ops.
+Proof. exact (conj x_k3_hyps pruning_two_deployed_refuted). Qed.
+Print Assumptions C09_quiescent_wf_pruning_refuted.
+
+(* "never the deployed revision" is false globally: the pruner computes its picks while the other
+   upgrade's revision 3 is pending, the other finishes (3: deployed), the pruner deletes the DEPLOYED
+   revision 3 and creates its own revision 3; both report success.  Replayed on the real code. *)
+Theorem C09_pruning_deletes_deployed_refuted :
+  let res := x_run x_k3_ops x_dd_sched x_prune_led (k0 x_objs) in
+  deleted_deployed x_prune_led (c_tr (snd res)) = true
+  /\ outcomes outcome (fst res) = [Some OOk; Some OOk]
+  /\ creations (c_tr (snd res)) = [(1, 3); (0, 3)]
+  /\ map (fun r => (rev r, st r)) (c_led (snd res)) = [(1, SSuperseded); (3, SDeployed)].
+Proof. exact pruning_deletes_deployed_refuted. Qed.
+Print Assumptions C09_pruning_deletes_deployed_refuted.
